@@ -298,6 +298,12 @@ pub fn run_case(case: &J, workdir: &str, out: &mut dyn Write, n: usize) {
             if (nth as usize) < list.len() {
                 let n = list.remove(nth as usize);
                 let t: Vec<&str> = n.trim().splitn(7, ' ').collect();
+                // keep: the arbiter decides for the value the key holds right now
+                let held = node.dump()[t[2]]["keys"][t[4]][0].as_str().map(|x| x.to_string());
+                let value: String = match (st["keep"].as_bool(), held) {
+                    (Some(true), Some(v)) => v,
+                    _ => value.to_string(),
+                };
                 let line = format!("resolve {} {} {} {} {}", t[1], t[2], t[4], t[3], value);
                 ev["op"] = json!({"op":"resolve","opid":t[1].parse::<u64>().unwrap_or(0),"d":t[2],"k":t[4],
                                   "ver":t[3].parse::<i64>().unwrap_or(-1),"v":value,"notice":n.trim()});
